@@ -219,6 +219,38 @@ func c12Run(w *W) {
 			}
 		}
 	}
+	// bracket members as ITEMS: an item is an ordinary character, a special one or an escaped one; every sequence of
+	// ≤ 3 items (an escaped hyphen between two members is 4 characters: [a\-b])
+	items := []string{"a", "b", "-", ".", "+", ",", "\\-", "\\\\", "\\]", "\\a", "\\^", "\\!", "\\[", "*", "?"}
+	var seqs []string
+	var recI func(cur string, n int)
+	recI = func(cur string, n int) {
+		if n > 0 {
+			seqs = append(seqs, cur)
+		}
+		if n == 3 {
+			return
+		}
+		for _, it := range items {
+			recI(cur+it, n+1)
+		}
+	}
+	recI("", 0)
+	subj5 := []string{"", "a", "b", "-", ".", "+", ",", "\\", "]", "^", "!", "[", "*", "?", "c"}
+	for _, neg := range []string{"", "!"} {
+		for _, seq := range seqs {
+			if !w.Mine() {
+				continue
+			}
+			ps := "[" + neg + seq + "]"
+			w.Announce("pattern " + ps)
+			w.Count("states", 1)
+			for _, s := range subj5 {
+				c12One(w, []string{ps}, pattern.Prefix|pattern.Largest, s)
+				c12One(w, []string{ps}, pattern.Suffix|pattern.Smallest, s)
+			}
+		}
+	}
 	// pattern lists: "several patterns match exactly when one of them does"
 	var small []string
 	genRunes([]rune("ab*?[]\\"), 2, func(p []rune) { small = append(small, string(p)) })
